@@ -40,7 +40,7 @@ Import ListNotations.
 Local Open Scope Z_scope.
 
 (* the parameters as they are in /repo now (regenerated on every run) *)
-Definition cparams : params := mkParams certValidity clockSkewAllowance verifyMaxLifetime.
+Definition cparams : params := mkParams certValidity clockSkewAllowance verifyMaxLifetime verifyRsaRule.
 
 (* the numbers the property text fixes *)
 Definition spec_max_validity : Z := 14 * 24 * 3600 * SEC.
@@ -170,8 +170,6 @@ Definition events_wf (maxgap : Z) (l : list ev) : bool :=
   end.
 
 (* ---- the property on one verifier call / one dial -------------------------- *)
-Definition is_rsa (c : xcert) : bool := x_pubrsa c || (x_sig c =? 1) || (x_sig c =? 2).
-
 (* "accepts a server certificate only if its SHA-256 equals one of the hashes
    in the dialed address and it meets the validity rules (not RSA, at most 14
    days, currently valid)".  The stated quantifier has chains of length 0 and
